@@ -20,6 +20,7 @@ type Result struct {
 	Err          error  // oracle violation (nil = held)
 	Kind         string // short failure kind used for known-finding signatures
 	Inconclusive bool   // the case could not be judged (slow machine etc.)
+	Fatal        bool   // the failure left goroutines stuck: the process cannot run further cases (no shrinking)
 }
 
 // Prop is one property check: generator, oracle, JSON replay.
@@ -78,6 +79,11 @@ func runOne(t interface {
 	if r.Err != nil {
 		vstat.Fail(p.ID, r.Kind, c, r.Err.Error())
 		b, _ := json.Marshal(c)
+		if r.Fatal {
+			fmt.Printf("property %s violated (%s): %v\ncase: %s\n", p.ID, r.Kind, r.Err, b)
+			vstat.Flush()
+			osExit(1)
+		}
 		t.Fatalf("property %s violated (%s): %v\ncase: %s", p.ID, r.Kind, r.Err, b)
 	}
 }
